@@ -494,14 +494,19 @@ def _targets(st):
     return out
 
 
-def slice_kernel(modname, qualname, names, guards=True, space=None):
+def slice_kernel(modname, qualname, names, guards=True, space=None,
+                 provided=None):
     """AST slicer: from the function `qualname` of repo module `modname`
     extract, in source order (top level of the function body), the
     assignments whose targets are all in `names` and (guards=True) the
     `if` statements that only raise.  Returns (run, info) where run(env)
     executes the slice in a namespace with the symbolic-aware builtins and
     returns the final namespace.  A pattern that matches nothing is a harness
-    error (the encoding must be regenerated from source, never guessed)."""
+    error (the encoding must be regenerated from source, never guessed).
+    provided: names the caller puts into env.  When given, helper names that
+    the picked statements read and that are neither wanted, provided, module
+    globals nor builtins are resolved by also picking their (top-level,
+    single-name) assignments -- a dependency closure in source order."""
     node, path = get_function_ast(modname, qualname)
     picked = []
     found = set()
@@ -541,6 +546,25 @@ def slice_kernel(modname, qualname, names, guards=True, space=None):
     if missing:
         raise HarnessError('AST slice of %s.%s: no assignment to %s' % (
             modname, qualname, sorted(missing)))
+    if provided is not None:
+        import builtins as _bi
+        known = set(names) | set(provided) | set(dir(_bi)) | found
+        known |= set((space or TwinSpace()).twin(modname).__dict__)
+        changed = True
+        while changed:
+            changed = False
+            reads = set()
+            for st in picked:
+                reads |= set(n.id for n in ast.walk(st)
+                             if isinstance(n, ast.Name) and
+                             isinstance(n.ctx, ast.Load))
+            for nm in sorted(reads - known):
+                for st in node.body:
+                    if st not in picked and _targets(st) == [nm]:
+                        picked.append(st)
+                        changed = True
+                known.add(nm)
+        picked.sort(key=lambda st: st.lineno)
     clsname = qualname.split('.')[-2] if '.' in qualname else None
     mod = ast.Module(body=picked, type_ignores=[])
     mod = _Rewrite().visit(mod)
